@@ -160,7 +160,7 @@ def gen_script(rng, profile, nops, path, wal=None, allow_reopen=False):
 
     weights = {
         "map": [("put", 40), ("get", 12), ("getcopy", 5), ("del", 20), ("inc", 5), ("puth", 4), ("nover", 5), ("dump", 3),
-                ("struct", 2), ("badkey", 2), ("putbig", 1), ("meta", 3), ("fill", 3), ("drain", 2), ("level", 3)],
+                ("struct", 2), ("badkey", 2), ("putbig", 1), ("meta", 3), ("fill", 3), ("drain", 2), ("level", 3), ("lower", 6)],
         "cursor": [("put", 20), ("del", 8), ("copen", 10), ("cmove", 40), ("cread", 15), ("cset", 6), ("cdel", 6), ("ctokey", 12),
                    ("dump", 2), ("fill", 3), ("cclose", 2), ("level", 2)],
         "concurrent-cursors": [("put", 25), ("del", 18), ("copen", 8), ("cmove", 35), ("cset", 4), ("cdel", 8), ("ctokey", 6),
@@ -168,7 +168,7 @@ def gen_script(rng, profile, nops, path, wal=None, allow_reopen=False):
         "reopen": [("put", 35), ("del", 15), ("get", 5), ("dump", 4), ("meta", 6), ("reopen", 6), ("fill", 3), ("dbdestroy", 1),
                    ("sync", 3), ("drain", 2), ("level", 2)],
         "struct": [("put", 40), ("del", 25), ("fill", 5), ("drain", 5), ("struct", 5), ("meta", 4), ("dbdestroy", 2), ("dump", 2),
-                   ("level", 6), ("reopen", 2), ("cdelrun", 2)],
+                   ("level", 6), ("reopen", 2), ("cdelrun", 2), ("lower", 8)],
     }[profile]
     i = 0
     while i < nops:
@@ -188,6 +188,8 @@ def gen_script(rng, profile, nops, path, wal=None, allow_reopen=False):
             s.add("put %d %s %s %d %d" % (d, keyarg(d), hexb(val()), rng.choice([0, 1]), rng.choice([1, 2])))
         elif op == "get":
             s.add("get %d %s" % (d, keyarg(d, rng.chance(1, 4))))
+        elif op == "lower":
+            s.add("lower %d %s" % (d, keyarg(d, rng.chance(1, 2))))
         elif op == "getcopy":
             s.add("getcopy %d %s %d" % (d, keyarg(d), rng.choice([0, 1, 4, 20, 64, 2000])))
         elif op == "del":
@@ -788,6 +790,7 @@ class Session:
 
     def __init__(self, exe, env=None):
         import subprocess
+        vlib.keep_build(exe)
         self.p = subprocess.Popen([exe], stdin=subprocess.PIPE, stdout=subprocess.PIPE, stderr=subprocess.PIPE, env=env)
         self.dead = False
 
@@ -894,7 +897,16 @@ def execute(impl, lines, modes, env=None, auditor=None):
 
 def compare_model(model, final, outs):
     """run the extracted model on the final script; returns list of (idx, impl, model)"""
-    rc, mo, err = vlib.run_lines(model, "\n".join(final) + "\n", timeout=900)
+    # `lower`: the model runs its multi-level search (KV/Skip.v) on its own chain with the node levels the implementation reports
+    feed = []
+    for i, l in enumerate(final):
+        f = l.split()
+        if f and f[0] == "lower" and outs[i] and outs[i].startswith("OK idx="):
+            o = dict(x.split("=") for x in outs[i].split()[1:])
+            feed.append("skiplower %s %s %s %s %s" % (f[1], f[2], f[3] if len(f) > 3 else "0", o["top"], o["lv"]))
+        else:
+            feed.append(l)
+    rc, mo, err = vlib.run_lines(model, "\n".join(feed) + "\n", timeout=900)
     mism = []
     for i, l in enumerate(final):
         op = l.split()[0] if l.split() else ""
@@ -903,6 +915,8 @@ def compare_model(model, final, outs):
         a = outs[i]
         if op == "struct":
             a = canon_struct(a)
+        if op == "lower" and a.startswith("OK idx="):
+            a = a.split(" top=")[0]
         b = mo[i] if i < len(mo) else "<missing>"
         if b == "UNMODELLED":
             continue
